@@ -353,13 +353,13 @@ class Probe:
         return name
 
     def emit(self, it, vals):
-        vals = list(vals) + ["0"] * (6 - len(vals))
+        vals = list(vals) + ["0"] * (8 - len(vals))
         it["lines"].append(("print", "R(%d, %s);" % (it["id"], ", ".join("(long long)(%s)" % v for v in vals))))
 
     def source(self, skip=()):
         """Returns (text, {line -> (item id, role)}, [ids of the items that are in the text])."""
         lines = ["#include <stdio.h>", "#include <stddef.h>", "#include <stdint.h>", "#include %s" % self.header,
-                 "#define R(id,a,b,c,d,e,f) printf(\"%d|%lld|%lld|%lld|%lld|%lld|%lld\\n\",id,a,b,c,d,e,f)",
+                 "#define R(id,a,b,c,d,e,f,g,h) printf(\"%d|%lld|%lld|%lld|%lld|%lld|%lld|%lld|%lld\\n\",id,a,b,c,d,e,f,g,h)",
                  "#define COMPAT(A,B) __builtin_types_compatible_p(A*, B*)"]
         owner = {}
         live = []
@@ -551,10 +551,14 @@ def build_forward(meta, hdr):
         _twin_body(probe, an, s.fields, tpre, body)
         it["lines"].extend(tpre)
         it["lines"].append(("twin", "struct %s {\n%s\n};" % (twin, "\n".join(body))))
+        # second twin, built from the metadata's OWN print-back (str(field) / decl()) of every member: what a consumer gets when it
+        # prints a struct description must denote the same layout as the header (anonymous unions/structs, arrays, pointers)
+        ptwin = "c49_ptwin_%s" % re.sub(r"\W", "_", s.name)
+        it["lines"].append(("printed-twin", "struct %s {\n%s\n};" % (ptwin, "\n".join("  %s;" % str(fd) for fd in s.fields))))
         a = probe.typeof(s.name, it, "typedef")
         b = probe.typeof(s.declname, it, "declname")
         probe.emit(it, ["sizeof(%s)" % s.name, "_Alignof(%s)" % s.name, "COMPAT(%s, %s)" % (a, b),
-                        "sizeof(struct %s)" % twin, "_Alignof(struct %s)" % twin])
+                        "sizeof(struct %s)" % twin, "_Alignof(struct %s)" % twin, "sizeof(struct %s)" % ptwin, "_Alignof(struct %s)" % ptwin])
         for path, fd, t, in_union in flat:
             if path in missing:
                 continue
@@ -568,6 +572,7 @@ def build_forward(meta, hdr):
                 vals.append("COMPAT(%s, %s)" % (hn, tn))
             else:
                 vals.append("-1")
+            vals += ["offsetof(struct %s, %s)" % (ptwin, path), "sizeof(((struct %s*)0)->%s)" % (ptwin, path)]
             probe.emit(fi, vals)
 
     known_consts = set(n for names in list(hdr.enums.values()) + hdr.anon_enums for n in names)
@@ -643,6 +648,8 @@ def judge_forward(sink, probe, rows, failed, unprobed, compiler):
                 sink.violation("struct:typedef-is-not-declname", sample)
             if v[0] != v[3] or v[1] != v[4]:
                 sink.violation("struct:size-or-alignment-differs-from-metadata-twin", sample)
+            if v[0] != v[5] or v[1] != v[6]:
+                sink.violation("struct:size-or-alignment-differs-from-the-metadata's-printed-declaration", dict(sample, printed_sizeof=v[5], printed_alignof=v[6]))
         elif kind == "opaque-struct":
             if v[0] != 1:
                 sink.violation("struct:typedef-is-not-declname", d)
@@ -654,6 +661,8 @@ def judge_forward(sink, probe, rows, failed, unprobed, compiler):
                 sink.violation("struct-field:size-mismatch", sample)
             if v[0] != v[2]:
                 sink.violation("struct-field:offset-differs-from-metadata-order", sample)
+            if v[0] != v[5] or v[1] != v[6]:
+                sink.violation("struct-field:offset-or-size-differs-in-the-metadata's-printed-declaration", dict(sample, printed_offsetof=v[5], printed_sizeof=v[6]))
         elif kind == "enum":
             if v[1] != 1:
                 sink.violation("enum:typedef-is-not-declname", dict(d, sizeof=v[0]))
